@@ -319,6 +319,10 @@ class MarshalSerializer(SerializerBase):
         return marshal.dumps((obj, method, vargs, kwargs))
 
     def dumps(self, data):
+        if type(data) is list:
+            # the results of a batch: a failed call is represented by an exception wrapper object inside the list
+            from . import core
+            data = [self.class_to_dict(value) if isinstance(value, core._ExceptionWrapper) else value for value in data]
         return marshal.dumps(self.convert_obj_into_marshallable(data))
 
     def loadsCall(self, data):
